@@ -319,7 +319,8 @@ int bufr_subset_find_values( DataSubset *dts, BufrDescValue *codes, int nb, int 
 					qual[k].descriptor&(~FLAG_BITS), cb->meta);
 				if( qd == NULL ) break;
 
-				scale = cb->encoding.scale ? pow(10,(double)cb->encoding.scale) : 1;
+				/* half the precision of the qualifier being compared */
+				scale = qd->encoding.scale ? pow(10,(double)qd->encoding.scale) : 1;
 				epsilon = 0.5 / scale;
 					
 				if( bufr_compare_value( qd->value, qual[k].values[0], epsilon ) )
